@@ -22,7 +22,7 @@ LEVEL = "proof"
 TECHNIQUE = ("Lean 4 proofs about hand models of the three engine mechanisms (iterative instruction walker, variables stack, "
              "pending start tag) + differential correspondence of the real XalanTransformer against an independent "
              "executable XSLT 1.0 core specification written in Lean")
-LEVEL_TEXT = ("PROVED in Lean, for all inputs (18 theorems, lean/XalanModel/Props/C01.lean): "
+LEVEL_TEXT = ("PROVED in Lean, for all inputs (19 theorems, lean/XalanModel/Props/C01.lean): "
               "(1) walker_eq_recursion / walker_restores_stack — for every instruction tree over leaf / block / call-template / choose / "
               "for-each (any node count) / apply-templates (any sequence of selected templates) / use-attribute-sets (any nested sets), any nesting "
               "and call graph, the iterative startElement/endElement/getInvoker/getNextChildElemToExecute loop of ElemTemplateElement::execute "
@@ -48,6 +48,9 @@ LEVEL_TEXT = ("PROVED in Lean, for all inputs (18 theorems, lean/XalanModel/Prop
               "callers have bound under the same name (XSLT 7.1.4), and attribute_sets_see_only_globals — in Spec.lean the events of "
               "the used attribute sets do not depend on the user's local variables / passed parameters; "
               "variables_attribute_set_wrong_index_counterexample shows the lookup with the index left at the current frame. "
+              "(4) avt_literals_opaque — in the attribute-value-template parser of the model (Avt.avtParse, XSLT 7.6.2, fed with the RAW "
+              "attribute text) braces, doubled braces and the other quote character inside a string literal of either quote style are "
+              "not template syntax: the literal is taken verbatim and lexing continues in the expression. "
               "(3) pending_refines_spec / pending_wellformed — for every sequence of engine calls the pending-start-tag protocol of "
               "XSLTEngineImpl delivers a balanced stream with attributes only inside start tags, and exactly the XSLT 7.1.3 tree when "
               "attributes are added through the guarded path. Three counterexample theorems (replayed on the real engine) show where the "
@@ -67,7 +70,8 @@ LEVEL_NOTE = ("Partial. What the proofs do NOT cover: no Lean model of the whole
               "patterns, every pattern kind of XSLT 5.5 with its default priority computed by Spec.lean (processing-instruction('t') and QName 0, "
               "p:* -0.25, other node tests -0.5, the rest 0.5; rule sets differing in default priority only, on every node kind), apply-templates, call-template, for-each, sort, value-of, copy, copy-of, element and attribute (name AVTs, "
               "namespace= AVTs, namespace=\"\"), text, comment, processing-instruction, if, choose, variable, param, with-param, literal result "
-              "elements with AVTs, global variables/params, attribute sets (merged by import precedence), keys (several declarations of one "
+              "elements with AVTs (pre-split parts, and raw template TEXT with {{ }} escapes, several {expr} parts, string literals of both "
+              "quote styles holding braces / the other quote, nested calls; written with \" ' and character-reference quoting; split by Avt.avtParse), global variables/params, attribute sets (merged by import precedence), keys (several declarations of one "
               "name, also in imported modules), xsl:number (value / level / count / from, multi-token formats), strip-space with xml:space "
               "(XSLT 3.4), xsl:namespace-alias (single module), import trees + include + apply-imports with named templates / globals / keys "
               "in imported modules, re-execution of the same invocation; documents with prefixed elements / attributes (two prefixes for one "
@@ -100,6 +104,7 @@ THEOREMS = [
     "XalanModel.Props.C01.variables_attribute_set_scope",
     "XalanModel.Props.C01.variables_attribute_set_wrong_index_counterexample",
     "XalanModel.Props.C01.attribute_sets_see_only_globals",
+    "XalanModel.Props.C01.avt_literals_opaque",
     "XalanModel.Props.C01.pending_refines_spec",
     "XalanModel.Props.C01.pending_wellformed",
     "XalanModel.Props.C01.pending_unguarded_attribute_counterexample",
@@ -609,6 +614,14 @@ CORPUS = [
             (("step", ("ctx",), "attribute", "star", []), "A-star;"),
             (("step", ("ctx",), "child", "node", []), "N;")]]},
      [("E", "r", [("y", "2")], [("P", "p1", "d"), ("E", "a", [("x", "1")], [("T", "t")]), ("C", "c1"), ("P", "pp", ""), ("E", "b", [], [])])]),
+    # attribute value templates given as TEXT (split by Avt.avtParse on the Lean side): string literals of both quote styles
+    # holding braces, doubled braces and the other quote; the escapes {{ }} next to expressions; written with the three
+    # XML quoting styles
+    ({"globals": [], "templates": [ROOT_T([LRE("out", [], attrs=[
+        ("a", [("raw", '{"{x}}\'"}', "dq")]),
+        ("b", [("raw", "{{{concat('}{{\"', \"'{\", @x)}}}", "sq")]),
+        ("c", [("raw", 'x{"a"}{\'}\'}-{translate("{a}", "{", \'}\')}{{', "ref")]),
+        ("d", [("raw", '{string-length("}}{{")}{ "\'" }', "dq")])])])]}, DOC0),
     # empty value-of / empty RTF copy-of do not close the start tag
     ({"globals": [], "templates": [ROOT_T([LRE("out", [{"k": "valueof", "e": ("lit", "")}, ATTR("y", [T("2")])])])]}, DOC0),
 ]
